@@ -119,6 +119,20 @@ class Run:
                 cd = parse_created(cell["message"])
                 if cd is None:
                     return None
+                if self.cid_swap_armed and not self.cid_swapped:
+                    # a misbehaving next hop answers the relay's create with a correct created that names ANOTHER tunnel the
+                    # relay holds (an exit end of an established circuit) in its circuit-id field
+                    rnode = w.by_addr.get(fl.dst)
+                    others = [x for x in (rnode.overlay.exit_sockets if rnode is not None else {}) if x != cell["circuit_id"]]
+                    if others:
+                        self.cid_swapped = True
+                        self.applied.append(("cid_of_exit", self.created_seen))
+                        self.created_seen += 1
+                        self.wire_Y.append(cd["key"])
+                        data = bytearray(fl.data)
+                        data[23:27] = struct.pack(">I", sorted(others)[0])
+                        fl.data = bytes(data)
+                        return None
                 n = self.created_seen
                 self.created_seen += 1
                 # answers held back by "late_before_next" overtake this one: they arrive just before it
@@ -201,13 +215,26 @@ class Run:
             w.net.on_send = hook
             import random
             random.seed(c["seed"])
-            circuits = [origin.overlay.create_circuit(hops)]
-            if c["second"]:
-                circuits.append(origin.overlay.create_circuit(max(1, hops - 1)))
+            self.cid_swap_armed = False
+            self.cid_swapped = False
+            self.worked: dict[int, bool] = {}
+            if c.get("cid_of_exit") and hops >= 2:
+                # a one-hop circuit is established (and seen to work) first; then the main circuit is built and the answer
+                # to one of its extends carries the id of whatever exit end its relay holds
+                first = origin.overlay.create_circuit(1)
+                await asyncio.sleep(1.0)
+                circuits = [None, first]
+                self.check_established(origin, circuits)
+                await self.probe(loop, origin, circuits, final=False)
+                self.cid_swap_armed = True
+                circuits[0] = origin.overlay.create_circuit(hops)
+            else:
+                circuits = [origin.overlay.create_circuit(hops)]
+                if c["second"]:
+                    circuits.append(origin.overlay.create_circuit(max(1, hops - 1)))
             if circuits[0] is None:
                 self.fail("K1", "build", "no circuit could be started on a full mesh")
             replayed = False
-            self.worked: dict[int, bool] = {}
             for _ in range(80):
                 await asyncio.sleep(1.0)
                 self.check_established(origin, circuits)
@@ -385,6 +412,7 @@ def _strategy():
         "manips": st.lists(manip, max_size=3, unique_by=lambda m: m["nth"]),
         "nht": st.sampled_from([10, 10, 3]),
         "replay_create": st.sampled_from([None, None, None, 0, 1, 2]),
+        "cid_of_exit": st.sampled_from([0, 0, 0, 1]),
     })
 
 
@@ -403,6 +431,8 @@ def _grid_shard(ctx: Ctx, shard: int, nshards: int) -> None:
                         continue
                     case = {"hops": hops, "seed": 11 + k, "second": kind == "swap_other", "nht": 3 if arg == 7 else 10,
                             "manips": [{"nth": nth + (1 if kind == "swap_other" else 0), "type": kind, "arg": arg}]}
+                    if kind == "duplicate" and arg == 130 and hops >= 2:
+                        case = {"hops": hops, "seed": 11 + k, "second": False, "nht": 10, "manips": [], "cid_of_exit": 1}
                     if kind == "drop" and arg == 130:
                         # grid slot re-used for the honest build followed by a late replay of the nth create request
                         case = {"hops": hops, "seed": 11 + k, "second": False, "nht": 10, "manips": [], "replay_create": nth}
